@@ -80,13 +80,13 @@ func classOf(x float64) fclass {
 
 // aval is an abstract value.
 type aval struct {
-	kind    string // "param" (the analysed float parameter, class fixed by the run), "fconst", "bool", "str", "top"
-	f       float64
-	bools   uint8 // bit0: may be false, bit1: may be true
-	str     string
+	kind  string // "param" (the analysed float parameter, class fixed by the run), "fconst", "bool", "str", "top"
+	f     float64
+	bools uint8 // bit0: may be false, bit1: may be true
+	str   string
 }
 
-func top() aval             { return aval{kind: "top"} }
+func top() aval { return aval{kind: "top"} }
 func abool(f, t bool) aval {
 	var b uint8
 	if f {
